@@ -5,7 +5,7 @@ CONSTANTS
   MaxLen = 3
   Ops = {0, 1, 2, 3, 5, 6, 7, 11, 128}
   StopAtHit = FALSE
-  CheckFlags = FALSE
+  CheckFlags = TRUE
   Bug = ""
   Deviations = {}
 INVARIANTS Spelling RefinesCursor NoHitIfDone HitIfBound PairExact LoopReportExact
